@@ -695,6 +695,11 @@ func queryEngine(seed uint64, tier string, args []string) {
 			out.Flush()
 			continue
 		}
+		if sc.special == "lockwin" {
+			qLockWindowCase(idx, sc, &base0)
+			out.Flush()
+			continue
+		}
 		if fam := qFamily(sc.tag); fam != "" && (wedgedFam[fam] >= 2 || leakFam[fam] >= 4) {
 			// every wedged server costs ~15 s of guards, every leak 3 s of waiting: a few cases of a family are evidence enough
 			emit("# qskip %d tag=%s: %d cases of family %s already left the server wedged, %d left goroutines behind", idx, sc.tag, wedgedFam[fam], fam, leakFam[fam])
